@@ -89,6 +89,71 @@ func dictSize(t *simrt.Tape, max, fallback int) int {
 	return ok[t.Choose(simrt.KGen, len(ok))] - 1 + t.Choose(simrt.KGen, 3)
 }
 
+// ---------- systematic schedule enumeration ----------
+
+// exploreBounded enumerates, for the workload fixed by the tape prefix, every
+// schedule with at most `bound` preemptive context switches at sync and I/O
+// points (simrt.StratEnum: binary "switch away?" choices, free choice of the
+// next task whenever the running one blocks or exits). It is stateless
+// depth-first search over the choice tape: run, read back the domains of the
+// scheduling choices met, advance the deepest one that can still be advanced
+// within the bound, cut the tape there, run again. body must draw its
+// workload before the simulated run starts and must use simrt.StratEnum.
+// Returns the first violation, the number of schedules run, and whether the
+// space was exhausted within maxRuns.
+func exploreBounded(x *xctx, base []uint32, baseKinds []uint8, bound, maxRuns int, body func() *violation) (*violation, int, bool) {
+	isSched := func(k uint8) bool { return simrt.Kind(k) == simrt.KSwitch || simrt.Kind(k) == simrt.KPick }
+	prefix := len(base)
+	for i, k := range baseKinds {
+		if isSched(k) {
+			prefix = i
+			break
+		}
+	}
+	cur := append([]uint32{}, base[:prefix]...)
+	saved := x.t
+	defer func() { x.t = saved }()
+	runs := 0
+	for {
+		t := simrt.ReplayTape(cur)
+		x.t = t
+		runs++
+		if v := body(); v != nil {
+			return v, runs, false
+		}
+		used, kinds, ns := t.Used(), t.UsedKinds(), t.UsedNs()
+		// number of preemptions before each position
+		pre := make([]int, len(used)+1)
+		for i := range used {
+			pre[i+1] = pre[i]
+			if i >= prefix && simrt.Kind(kinds[i]) == simrt.KSwitch && used[i] == 1 {
+				pre[i+1]++
+			}
+		}
+		next := -1
+		for i := len(used) - 1; i >= prefix; i-- {
+			if !isSched(kinds[i]) || used[i]+1 >= ns[i] {
+				continue
+			}
+			if simrt.Kind(kinds[i]) == simrt.KSwitch && pre[i] >= bound {
+				continue // would be one preemption too many
+			}
+			next = i
+			break
+		}
+		if next < 0 {
+			if os.Getenv("VERIF_DEBUG_ENUM") != "" {
+				fmt.Fprintf(os.Stderr, "enum end: runs=%d prefix=%d used=%d kinds=%v ns=%v vals=%v\n", runs, prefix, len(used), kinds[prefix:], ns[prefix:], used[prefix:])
+			}
+			return nil, runs, true
+		}
+		cur = append(append([]uint32{}, used[:next]...), used[next]+1)
+		if runs >= maxRuns {
+			return nil, runs, false
+		}
+	}
+}
+
 // ---------- violations, records ----------
 
 type violation struct {
